@@ -126,7 +126,15 @@ def _get_ranges(headervalue, content_length):
         start, stop = brange.strip().split('-', 1)
         if start:
             start = _position(start)
-            stop = _position(stop) if stop else content_length - 1
+            if stop:
+                stop = _position(stop)
+                if stop < start:
+                    # rfc 7233 sec 2.1: a last-byte-pos less than the
+                    # first-byte-pos makes the spec invalid, wherever
+                    # the two lie (see the second rfc quote below)
+                    return None
+            else:
+                stop = content_length - 1
             # a last-byte-pos beyond the end means "up to the end"
             stop = min(stop, content_length - 1)
             if start >= content_length:
